@@ -7,7 +7,7 @@
     steps, followed by running every goroutine until it blocks. *)
 From Coq Require Import List.
 From RecordUpdate Require Import RecordSet.
-From GH Require Import Base.Prelude Model.Verify Model.Ranges Model.Syncer.
+From GH Require Import Base.Prelude Model.Verify Model.Ranges Model.Syncer Proofs.RangesP Proofs.SyncerP.
 Import RecordSetNotations.
 
 (** Gallina twin of vhdr.LinkPolicy(trustRange) (the type-level Verify the drivers install) *)
@@ -309,3 +309,40 @@ Definition ok07 (k : case07) : bool :=
   else true.
 
 Definition chk07 (k : case07) : bool * bool * N := (agree07 k, ok07 k, 0).
+
+(** ** tying the oracle's final check to the theorems: what C07_reaches_target
+    concludes ([reached]) is exactly what [final07] demands of the observation
+    of a quiescent configuration; and a rejected range answer shows up in the
+    observation as [walk07] demands (error reported, store and subjective head
+    unchanged) *)
+Lemma ranges_head_nil P : ranges_all P = [] -> ranges_head P = None.
+Proof.
+  intros H. unfold ranges_head. destruct (last_opt P) as [r|] eqn:E; [|reflexivity].
+  apply last_opt_in in E. unfold range_head.
+  assert (Hr : r_hdrs r = []).
+  { unfold ranges_all in H. destruct (r_hdrs r) as [|x l] eqn:Er; [reflexivity|exfalso].
+    assert (Hx : In x (flat_map r_hdrs P)) by (apply in_flat_map; exists r; split; [exact E|rewrite Er; left; reflexivity]).
+    rewrite H in Hx. destruct Hx. }
+  rewrite Hr. reflexivity.
+Qed.
+
+Lemma reached_observed ch H c' :
+  quiescent c' -> reached ch H c' ->
+  let o := observe 0 c' in
+  o_head o = H /\ o_height o = H /\ o_local o = H /\ o_err o = false /\ (o_to o <=? o_height o) = true /\
+  o_req o = None /\ sync_wait_returns c' = true.
+Proof.
+  intros [E1 E2] (EA & Eh & Ec & Ee & Ef & Ew & _). unfold observe, cur_req, local_head. cbn.
+  rewrite (ranges_head_nil _ EA), E1, Ee. unfold state_finished, state_height in *.
+  repeat split; auto.
+Qed.
+
+Lemma error_observed c k from to :
+  c_loop c = LReq k from to -> h_height from < to ->
+  let c' := l_step GErr c in
+  let o := observe 0 c in let o' := observe 0 c' in
+  o_err o' = true /\ o_head o' = o_head o /\ o_local o' = o_local o /\ o_height o' = o_height o.
+Proof.
+  intros El Hlt. destruct (error_aborts c k from to GErr SEGetter El Hlt (or_introl (conj eq_refl eq_refl))) as (A & B & C & _ & _ & F & _).
+  unfold observe, local_head, state_height. cbn zeta. cbn [o_err o_head o_local o_height]. rewrite A, B, C, F. repeat split; reflexivity.
+Qed.
